@@ -102,6 +102,8 @@ class RefRT(object):
         self.yields[(fr.path, k)] = ("val",)
 
     def ev_resume_exc(self, fr, k, leaves, e):
+        if isinstance(e, GeneratorExit):
+            return
         self.steps[fr.path] = self.steps.get(fr.path, 0) + 1
         self.yields[(fr.path, k)] = ("exc", desc_of(e))
 
